@@ -3,6 +3,7 @@ package props
 import (
 	"fmt"
 	"go/token"
+	"path/filepath"
 	"sort"
 	"strings"
 
@@ -278,6 +279,37 @@ func cliRun(prog *load.Program, env cliEnv, choices *interp.Choices) (*cliPath, 
 	}
 	m.Ext["errors.Is"] = isNotExist
 	m.Ext["os.IsNotExist"] = isNotExist
+	// errors.As(err, &target): nil never matches; an abstract error may or may not be of the target's
+	// type (explored both ways); on a match the target holds an unknown value of that type
+	m.Ext["errors.As"] = func(mm *interp.Machine, pos token.Pos, recv interp.Value, a []interp.Value) (interp.Value, error) {
+		if len(a) != 2 {
+			return nil, &interp.ErrUndecided{Pos: pos, Msg: "errors.As arity"}
+		}
+		if _, isNil := a[0].(interp.NilV); isNil {
+			return false, nil
+		}
+		why := fmt.Sprintf("errors.As(%s)@%s", interp.TermOf(a[0]), prog.Pos(pos))
+		hit, err := mm.TruthOf(&interp.Unknown{Why: why}, "0:"+why)
+		if err != nil {
+			return nil, err
+		}
+		if hit {
+			if ref, ok := a[1].(*interp.Ref); ok {
+				ref.Set(&interp.Unknown{Why: "target of " + why})
+			}
+		}
+		return hit, nil
+	}
+	// cleaning a path does not change which file it names
+	m.Ext["path/filepath.Clean"] = func(mm *interp.Machine, pos token.Pos, recv interp.Value, a []interp.Value) (interp.Value, error) {
+		if s, ok := a[0].(*interp.Sym); ok {
+			if c, isC := s.Concrete(); isC {
+				return interp.Lit(filepath.Clean(c)), nil
+			}
+			return s, nil
+		}
+		return a[0], nil
+	}
 	mocker := &interp.Opaque{Kind: "moq.Mocker", ID: "mocker", GoType: "*" + load.PkgMoq + ".Mocker"}
 	mocker.Methods = map[string]func(*interp.Machine, token.Pos, []interp.Value) (interp.Value, error){
 		"Mock": func(mm *interp.Machine, pos token.Pos, a []interp.Value) (interp.Value, error) {
